@@ -20,7 +20,9 @@ Tr == T.traces[tid]
 \* A step with several wait_for_event calls is executed again from the top each time a later wait is resolved: an earlier,
 \* already completed wait then RETURNS AGAIN the same event -- that replay is not a second completion.  It is allowed
 \* only with the same event and at most once per suspension of the invocation after the wait's first completion.
-St0 == [run |-> 0, rets |-> {}, tos |-> {}, asks |-> {}, bad |-> "ok", cnt |-> <<>>, first |-> <<>>, base |-> <<>>, susp |-> <<>>]
+\* gotby: <<step, waiter id, event>> -> the input whose wait that event completed (one waiter id of one step: one wait per event)
+St0 == [run |-> 0, rets |-> {}, tos |-> {}, asks |-> {}, bad |-> "ok", cnt |-> <<>>, first |-> <<>>, base |-> <<>>, susp |-> <<>>,
+        gotby |-> <<>>]
 Get(f, k) == IF k \in DOMAIN f THEN f[k] ELSE 0
 Put(f, k, v) == [x \in (DOMAIN f) \cup {k} |-> IF x = k THEN v ELSE f[x]]
 
@@ -33,10 +35,15 @@ Apply(s, r) ==
                        /\ n <= Get(s0.susp, <<r.step, r.uid>>) - s0.base[key]
          IN
          [s0 EXCEPT !.rets = @ \cup {key},
+                    !.gotby = IF <<r.step, r.wid, r.got_uid>> \in DOMAIN @ THEN @ ELSE Put(@, <<r.step, r.wid, r.got_uid>>, r.uid),
                     !.cnt = Put(@, key, n + 1),
                     !.first = IF n = 0 THEN Put(@, key, r.got_uid) ELSE @,
                     !.base = IF n = 0 THEN Put(@, key, Get(s0.susp, <<r.step, r.uid>>)) ELSE @,
                     !.bad = IF key \in s0.rets /\ ~replay THEN "wait_completed_twice"
+                            \* one response completes ONE wait of a waiter id: a later wait under the same id (another input of
+                            \* the same step) needs a response of its own
+                            ELSE IF <<r.step, r.wid, r.got_uid>> \in DOMAIN s0.gotby /\ s0.gotby[<<r.step, r.wid, r.got_uid>>] # r.uid
+                              THEN "one_event_completed_two_waits_of_one_waiter_id"
                             ELSE IF key \in s0.tos THEN "result_after_timeout"
                             ELSE IF r.got_ty # r.want THEN "wrong_type"
                             ELSE IF "k" \in DOMAIN r.reqs /\ r.reqs["k"] # r.got_k THEN "requirement_not_met"
